@@ -328,12 +328,14 @@ def write_evidence(pid, prop, tier, agg, wall, nviol, seed):
 
 # ------------------------------------------------------------------------------ check
 
-def cmd_check(pid, tier, only, jobs, job_filter):
+def cmd_check(pid, tier, only, jobs, job_filter, flavour_filter=None):
     t_start = time.time()
     seed = int(os.environ.get("VERIF_SEED", "0") or 0)
     prop = load_prop(pid)
     known = load_known()
     runs = [r for r in prop["runs"] if tier in r.get("tiers", ["quick", "thorough"])]
+    if flavour_filter:
+        runs = [r for r in runs if r["flavour"] in flavour_filter.split(",")]
     outdir = os.path.join(BUILD, "out", pid)
     shutil.rmtree(outdir, ignore_errors=True)
     os.makedirs(outdir, exist_ok=True)
@@ -415,7 +417,8 @@ def cmd_check(pid, tier, only, jobs, job_filter):
             else:
                 agg["foreign"] += 1
     # samples: round-robin over jobs so that every job is represented
-    per = [list(jr["result"]["samples"]) for jr in results if jr["result"]]
+    # deepest / latest samples first (the first sample of an explorer job is always "<initial>")
+    per = [list(reversed(jr["result"]["samples"])) for jr in results if jr["result"]]
     while any(per) and len(agg["samples"]) < 24:
         for p in per:
             if p and len(agg["samples"]) < 24:
@@ -545,6 +548,7 @@ def main(argv):
     only = []
     jobs = NPROC
     job_filter = None
+    flavour_filter = None
     i = 1
     while i < len(argv):
         if argv[i] == "--tier":
@@ -555,9 +559,11 @@ def main(argv):
             jobs = int(argv[i + 1]); i += 2
         elif argv[i] == "--job-filter":
             job_filter = argv[i + 1]; i += 2
+        elif argv[i] == "--flavours":
+            flavour_filter = argv[i + 1]; i += 2
         else:
             print("unknown argument", argv[i]); return 64
-    return cmd_check(pid, tier, only, jobs, job_filter)
+    return cmd_check(pid, tier, only, jobs, job_filter, flavour_filter)
 
 
 if __name__ == "__main__":
